@@ -287,16 +287,35 @@ def run(ctx) -> None:
     ctx.check("R3", unparse(g.iter) == p_tags and isinstance(g.target, ast.Name) and unparse(lc.elt) == g.target.id,
               "_parse_version_tags returns the tags themselves, taken from all_tags", "cli._parse_version_tags: result elements are not the listed tags",
               unparse(lc), loc=pv.loc(lc))
-    ctx.require(len(g.ifs) == 1 and isinstance(g.ifs[0], ast.Call), "_parse_version_tags filter shape changed")
-    fc = g.ifs[0]
-    eng = fc.func.value if isinstance(fc.func, ast.Attribute) else None
-    eng_def = shapes.resolve_alias(pv, eng) if eng is not None else None
-    eng_ok = isinstance(fc.func, ast.Attribute) and fc.func.attr == "is_valid" and isinstance(eng_def, ast.IfExp) \
-        and unparse(eng_def.test) == p_new and unparse(eng_def.body) == "v2version" and unparse(eng_def.orelse) == "v1version"
-    ctx.check("R3", eng_ok, "_parse_version_tags: filter is (v2version if is_new_pattern else v1version).is_valid",
-              "cli._parse_version_tags: tags are not filtered by the pattern's own engine", unparse(fc), loc=pv.loc(fc))
-    ctx.check("R3", [unparse(a) for a in fc.args] == [g.target.id if isinstance(g.target, ast.Name) else "?", p_pat],
-              "_parse_version_tags: is_valid(tag, version_pattern)", "cli._parse_version_tags: is_valid arguments changed", unparse(fc), loc=pv.loc(fc))
+    if not g.ifs:
+        ctx.bad("R3", "cli._parse_version_tags: tags are not filtered by the version pattern",
+                f"`{unparse(lc)[:80]}` keeps every tag: tags that do not match the pattern take part in the comparison (and can break it)", loc=pv.loc(lc),
+                what="_parse_version_tags: filter is (v2version if is_new_pattern else v1version).is_valid")
+    valid_calls = [c_ for t_ in g.ifs for c_ in ast.walk(t_) if isinstance(c_, ast.Call) and isinstance(c_.func, ast.Attribute) and c_.func.attr == "is_valid"]
+    if g.ifs and not (len(g.ifs) == 1 and isinstance(g.ifs[0], ast.Call)):
+        # a compound filter: it must be equivalent to the validity test alone
+        ctx.require(len(valid_calls) == 1, "_parse_version_tags filter shape changed")
+
+        def _cls(leaf: ast.AST) -> T.Tuple[str, bool]:
+            if leaf is valid_calls[0]:
+                return "VALID", True
+            raise AnalysisError(f"C09/R3: filter leaf not enumerated: {unparse(leaf)[:60]}")
+        fbf = BF.true()
+        for t_ in g.ifs:
+            fbf = fbf & shapes.bool_expr_bf(t_, _cls)
+        ctx.check("R3", fbf.equiv(BF.var("VALID")), "_parse_version_tags keeps a tag iff it is valid for the pattern",
+                  "cli._parse_version_tags: tags are not filtered by the version pattern", f"kept iff {fbf.to_dnf()}", loc=pv.loc(lc))
+        g = ast.comprehension(target=g.target, iter=g.iter, ifs=[valid_calls[0]], is_async=0)
+    if g.ifs:
+        fc = g.ifs[0]
+        eng = fc.func.value if isinstance(fc.func, ast.Attribute) else None
+        eng_def = shapes.resolve_alias(pv, eng) if eng is not None else None
+        eng_ok = isinstance(fc.func, ast.Attribute) and fc.func.attr == "is_valid" and isinstance(eng_def, ast.IfExp) \
+            and unparse(eng_def.test) == p_new and unparse(eng_def.body) == "v2version" and unparse(eng_def.orelse) == "v1version"
+        ctx.check("R3", eng_ok, "_parse_version_tags: filter is (v2version if is_new_pattern else v1version).is_valid",
+                  "cli._parse_version_tags: tags are not filtered by the pattern's own engine", unparse(fc), loc=pv.loc(fc))
+        ctx.check("R3", [unparse(a) for a in fc.args] == [g.target.id if isinstance(g.target, ast.Name) else "?", p_pat],
+                  "_parse_version_tags: is_valid(tag, version_pattern)", "cli._parse_version_tags: is_valid arguments changed", unparse(fc), loc=pv.loc(fc))
 
     from checks.c01 import full_match_rule
     for eng in ("v2version", "v1version"):
